@@ -70,7 +70,7 @@ LoadItems(ph, src, parts) ==                       \* relationships kept: extern
 
 Refused(e) == [ok |-> FALSE, err |-> e, parts |-> <<>>, rels |-> <<>>]
 
-\* form \in {"path", "stream", "dir"}
+\* form \in {"path", "stream", "dir", "dirlink"}   (dirlink: a directory-form package whose sub-directories are symbolic links)
 OpenOf(ph, form) ==
   IF ph.kind = "nopath" THEN Refused("PackageNotFoundError")
   ELSE IF ph.kind \in {"notzip", "truncated"}
